@@ -46,6 +46,31 @@ Definition tmle_var_lnor (l : list row) : Q := ic_var (map (tmle_ic_or (Qred (tm
 Definition xf_part_var (est : Q) (part : list (Q * Q)) : Q := var_ddof1 (map (fun p => fst p - snd p - est) part).
 Definition xf_aipw_var (est : Q) (parts : list (list (Q * Q))) (n : Q) : Q := meanq (map (xf_part_var est) parts) / n.
 
+(* cross-fit TMLE (crossfit.tmle_calculator): a row as the function receives it -- outcome, targeted predictions under A=1 / A=0 /
+   the observed A, the clever covariates H1, H0 and HA = H1 + H0 (crossfit.targeting_step).  The influence values are the
+   expressions of TMLE.fit (tmle_ic_* above, see VarianceProofs / GenProofs_xftmle.xf_ic_is_tmle_ic) with the means of the PART;
+   the variance of one partition is the mean over its parts of the within-part sample variance (ddof 1), over n. *)
+Record xrow := { x_y : Q; x_q1 : Q; x_q0 : Q; x_qa : Q; x_h1 : Q; x_h0 : Q; x_ha : Q }.
+Definition xf_ic_rd (est : Q) (r : xrow) : Q := x_ha r * (x_y r - x_qa r) + (x_q1 r - x_q0 r) - est.
+Definition xf_ic_rr (m1 m0 : Q) (r : xrow) : Q :=
+  1 / m1 * (x_h1 r * (x_y r - x_qa r) + x_q1 r - m1) - 1 / m0 * (- x_h0 r * (x_y r - x_qa r) + x_q0 r - m0).
+Definition xf_ic_or (m1 m0 : Q) (r : xrow) : Q :=
+  1 / (m1 * (1 - m1)) * (x_h1 r * (x_y r - x_qa r) + x_q1 r) - 1 / (m0 * (1 - m0)) * (- x_h0 r * (x_y r - x_qa r) + x_q0 r).
+Definition xf_over_parts (pv : list xrow -> Q) (parts : list (list xrow)) (n : Q) : Q := meanq (map pv parts) / n.
+Definition xf_tmle_var_rd (est : Q) := xf_over_parts (fun p => var_ddof1 (map (xf_ic_rd est) p)).
+Definition xf_tmle_var_rr := xf_over_parts (fun p => var_ddof1 (map (xf_ic_rr (meanq (map x_q1 p)) (meanq (map x_q0 p))) p)).
+Definition xf_tmle_var_or := xf_over_parts (fun p => var_ddof1 (map (xf_ic_or (meanq (map x_q1 p)) (meanq (map x_q0 p))) p)).
+(* what crossfit.tmle_calculator computes for the risk ratio INSTEAD: the centred prediction q_a - mean is not divided by the
+   mean (a misplaced parenthesis; recorded finding, the value is pinned by the repository's own tests) *)
+Definition xf_ic_rr_code (m1 m0 : Q) (r : xrow) : Q :=
+  1 / m1 * (x_h1 r * (x_y r - x_qa r)) + x_q1 r - m1 - (1 / m0 * (- x_h0 r * (x_y r - x_qa r)) + x_q0 r - m0).
+Definition xf_tmle_var_rr_code := xf_over_parts (fun p => var_ddof1 (map (xf_ic_rr_code (meanq (map x_q1 p)) (meanq (map x_q0 p))) p)).
+(* point estimates *)
+Definition xf_tmle_est_rd (all : list xrow) : Q := meanq (map (fun r => x_q1 r - x_q0 r) all).
+Definition xf_tmle_est_rr (all : list xrow) : Q := meanq (map x_q1 all) / meanq (map x_q0 all).
+Definition xf_tmle_est_or (all : list xrow) : Q :=
+  (meanq (map x_q1 all) / (1 - meanq (map x_q1 all))) / (meanq (map x_q0 all) / (1 - meanq (map x_q0 all))).
+
 (* StochasticTMLE: mean of squared influence values over n (no ddof correction), per the cited estimator *)
 Definition mean_sq (v : list Q) : Q := Qsum (fun x => x * x) v / Qlen v.
 Definition stmle_var (v : list Q) : Q := mean_sq v / Qlen v.
